@@ -279,6 +279,7 @@ impl StringPool {
             writer.write_u16::<LittleEndian>((length & 0xffff) as u16)?;
             writer.write_u16::<LittleEndian>(refcount)?;
         }
+        writer.flush()?;
         Ok(())
     }
 
@@ -287,6 +288,7 @@ impl StringPool {
         for (string, _) in self.strings.iter() {
             writer.write_all(&self.codepage.encode(string.as_str()))?;
         }
+        writer.flush()?;
         Ok(())
     }
 }
